@@ -157,6 +157,12 @@ func drawDecCase(t *rapid.T) decCase {
 	if c.DstLen > 1<<20 {
 		c.DstLen = 1 << 20
 	}
+	if rapid.IntRange(0, 3).Draw(t, "srcspare?") == 0 {
+		c.SrcSpare = rapid.SampledFrom([]int{1, 8, 64, 300}).Draw(t, "srcspare")
+		if len(c.Dict) > 0 {
+			c.DictSpare = rapid.SampledFrom([]int{0, 8, 64}).Draw(t, "dictspare")
+		}
+	}
 	c.Spare = rapid.SampledFrom([]int{0, 0, 1, 16, 64, 4096}).Draw(t, "spare")
 	c.Fill = rapid.SampledFrom([]int{0, 1, 2, 3}).Draw(t, "fill")
 	c.Place = rapid.SampledFrom([]string{"end", "end", "start"}).Draw(t, "place")
@@ -235,6 +241,21 @@ func runC03(c decCase, rec *stat.Rec) *stat.Failure {
 	tw := twinDecode(c)
 	if f := c03Judge("noasm", c, tw); f != nil {
 		return f
+	}
+	if (c.SrcSpare > 0 || c.DictSpare > 0) && c.Place != "start" {
+		// reads outside src / dict that stay inside their capacity cannot fault; they show when the bytes lying there
+		// change: the whole destination (and the outcome) must not depend on them
+		rec.Class("src-or-dict/spare-capacity(read-outside-shows-as-a-difference)")
+		c2 := c
+		c2.SparePat = c.SparePat + 1
+		for bi, run := range []func(decCase) decResult{execDecode, twinDecode} {
+			first := []decResult{local, tw}[bi]
+			second := run(c2)
+			if second.Status != first.Status || second.N != first.N || !bytes.Equal(second.Whole, first.Whole) {
+				return stat.Failf("C03/"+[]string{localBuild(), "noasm"}[bi]+"/result-depends-on-bytes-beyond-len(src)-or-len(dict)", "len(src)=%d (+%d spare) len(dict)=%d (+%d spare) len(dst)=%d: with other bytes in the spare capacity: %s n=%d vs %s n=%d, destination differs at %d",
+					len(c.Src), c.SrcSpare, len(c.Dict), c.DictSpare, c.DstLen, first.Status, first.N, second.Status, second.N, firstDiff(first.Whole, second.Whole))
+			}
+		}
 	}
 	rec.Class("outcome/asm="+local.Status, "outcome/noasm="+tw.Status)
 	if deep {
@@ -396,7 +417,7 @@ func TestC03(t *testing.T) {
 	rec := stat.For("C03")
 	rec.SetRule(decGenRule + "Oracle: both decoders (assembly in process, portable through the noasm twin process) return an error or 0 <= n <= len(dst), no panic or fault escapes, " +
 		"canaries intact. Non-trivial = the decoder gets past the first token into a match or an extended length; distinct by hash(src, len(dst), dict, placement).")
-	rec.Require("nontrivial", "dict/touched-by-a-match", "dst/spare-capacity", "place/start", "place/end", "outcome/asm=ok", "outcome/asm=error", "outcome/noasm=ok", "outcome/noasm=error", "dst/room-after-output=00..07", "dst/room-after-output=16..23", "dst/room-after-output=40..47", "src/final-literals=00..07", "src/final-literals=16..23")
+	rec.Require("nontrivial", "src-or-dict/spare-capacity(read-outside-shows-as-a-difference)", "dict/touched-by-a-match", "dst/spare-capacity", "place/start", "place/end", "outcome/asm=ok", "outcome/asm=error", "outcome/noasm=ok", "outcome/noasm=error", "dst/room-after-output=00..07", "dst/room-after-output=16..23", "dst/room-after-output=40..47", "src/final-literals=00..07", "src/final-literals=16..23")
 	checkProp(t, "C03", "C03/decode", pick(30000, 1500000), drawDecCase, runC03)
 }
 
